@@ -25,7 +25,8 @@ Inductive case :=
 | CBlock (net height : N) (codegas : option N) (store : list kv) (txs : list (txp * option (N * outcome)))
          (recs : list obs) (ws : list kv)
 | CPanic (net height : N) (codegas : option N) (store : list kv) (txs : list (txp * option (N * outcome)))
-         (panicked : bool).
+         (panicked : bool)
+| CDeploy (create unit : option N) (store : list kv) (d : deptx) (rec : obs) (ws : list kv).
 
 Definition kv_eqb (a b : kv) : bool := bytes_eqb (fst a) (fst b) && bytes_eqb (snd a) (snd b).
 
@@ -63,6 +64,9 @@ Definition case_ok (c : case) : bool :=
   | CPanic net height codegas store txs panicked =>
       let '(_, rs) := run_case net height codegas store txs in
       eqb panicked (match r_status (last rs (mkRes (mkState [] [] []) StFail 0 [] 0 None)) with StPanic => true | _ => false end)
+  | CDeploy create unit store d rec ws =>
+      let r := handle_deploy create unit d (mkState [] [] store) in
+      rec_ok r rec && list_eqb kv_eqb (write_set (r_state r)) ws
   end.
 
 Definition mismatches := mism case_ok.
